@@ -1,3 +1,4 @@
+import Lm.Inst.CoreTie
 import Lm.Inv.CoreSafe
 import Lm.Inv.CoreGuards
 /-! # C17 — become/unbecome form a handler stack that is reset when the module stops -/
@@ -87,5 +88,11 @@ def cfg0 : Cfg := { st := { batches := [[.ps "h0"], [.ps "h0"], [.ps "h0"]] } }
 /-- handlers used: #5 (top), then #3 after the unbecome made inside the first invocation, then #0 after stop/start -/
 example : ((run cfg0 demo).st.out.filterMap fun o => match o with | .invoke cb _ _ => some cb | _ => none)
     = [.evt 5, .evt 3, .evt 0] := by decide +kernel
+
+
+/-- tie A: the guard prefixes of the entry points this property is about, re-extracted from the source on every run,
+are the ones the model transcribes (`Lm.Inst.CoreTie`) -/
+theorem C17_guards_in_source :
+    Lm.Inst.CoreTie.slice Lm.Generated.CoreGuards.guards ["m_mod_become", "m_mod_unbecome"] = Lm.Inst.CoreTie.slice Lm.Inst.CoreTie.expected ["m_mod_become", "m_mod_unbecome"] := by decide
 
 end Lm.Props.C17
